@@ -60,6 +60,8 @@ def buildBtc {S A : Type} [DecidableEq S] (kind : Kind) (amount : Nat) (want : S
     match outs[i]? with
     | none => none
     | some o =>
+      -- since /repo fix "fee exceeds the value of the swap output": value − 200 ≤ fee is refused
+      if wrapI64 (o.value - 200) ≤ wrapI64 (fee : Int) then none else
       some { version := 2, prevIndex := i,
              sequence := seqOf kind csv,
              outputs := [(wrapI64 (wrapI64 (o.value - 200) - wrapI64 (fee : Int)), addr)],
